@@ -67,3 +67,232 @@ contract("buidl.tx.Tx.hash#anylen", props=("C04",), setup=_AtomSetup(), args=["s
          ensures=["returns()",
                   "result == spec.hash256(spec.listser.tx_legacy(self.version, self.tx_ins, self.tx_outs, self.locktime.serialize()))[::-1]"],
          gen=_gen_tx)
+
+
+# ---------------------------------------------------------------------------- C05: BIP143 for every shape
+class _Bip143Setup:
+    """Tx with input/output lists of arbitrary length; inputs carry symbolic outpoint, sequence and amount
+    (functions of the abstract element), outputs and the witness script are abstract serialisable elements"""
+
+    def __call__(self, m, env):
+        from buidl import tx as _tx, script as _sc
+        from verif.pyvc.values import HObj, TInt
+        from buidl.timelock import Locktime
+        symlist.install(m, {_tx.TxOut.serialize: "txout", _sc.Script.serialize: "script"})
+        ins = m.make_sym("tx_ins", symlist.symlist("buidl.tx.TxIn", max_len=2**32, fields={
+            "prev_tx": "bytes:32", "prev_index": U32, "sequence": ("tint", "buidl.timelock.Sequence", 0, 2**32 - 1),
+            "_value": ("int", 0, 2**63 - 1)}))
+        outs = m.make_sym("tx_outs", symlist.symlist("buidl.tx.TxOut", max_len=2**32))
+        lt = m.make_sym("locktime", U32)
+        env["self"] = m.p.alloc(HObj(_tx.Tx, {"version": m.make_sym("version", U32), "tx_ins": ins, "tx_outs": outs,
+                                              "locktime": TInt(Locktime, lt), "segwit": True, "network": "mainnet",
+                                              "_hash_prevouts": None, "_hash_sequence": None, "_hash_outputs": None}))
+        ws = m.make_sym("ws", symlist.symlist("buidl.script.WitnessScript", max_len=1))
+        env["witness_script"] = m.p.deref(ws).pre[2](0)
+        env["redeem_script"] = None
+        env["input_index"] = m.make_sym("input_index", ("int", 0, 2**32))
+
+    def conc(self, env, glob):
+        pass
+
+
+def _gen_bip143(rng, tier):
+    from buidl.script import WitnessScript
+    for n_in, n_out in ((1, 0), (1, 1), (2, 1), (3, 2), (2, 3), (5, 4)):
+        for ht in (0, 1, 2, 3, 0x81, 0x82, 0x83):
+            for idx in range(n_in):
+                ins = [{"__class__": "buidl.tx.TxIn", "fields": {
+                    "prev_tx": rand_bytes(rng, 32), "prev_index": rng.getrandbits(32),
+                    "script_sig": {"__class__": "buidl.script.Script", "fields": {"commands": [], "raw": None}},
+                    "sequence": {"__tint__": "buidl.timelock.Sequence", "value": rng.getrandbits(32)},
+                    "witness": {"__class__": "buidl.witness.Witness", "fields": {"items": []}},
+                    "_value": rng.getrandbits(62), "_script_pubkey": None}} for _ in range(n_in)]
+                outs = [{"__class__": "buidl.tx.TxOut", "fields": {"amount": rng.randrange(10**8), "script_pubkey": {
+                    "__class__": "buidl.script.Script", "fields": {"commands": [0x51 + rng.randrange(4)], "raw": None}}}} for _ in range(n_out)]
+                yield {"self": {"__class__": "buidl.tx.Tx", "fields": {
+                    "version": rng.getrandbits(32), "tx_ins": ins, "tx_outs": outs,
+                    "locktime": {"__tint__": "buidl.timelock.Locktime", "value": rng.getrandbits(32)}, "segwit": True,
+                    "network": "mainnet", "_hash_prevouts": None, "_hash_sequence": None, "_hash_outputs": None}},
+                    "input_index": idx, "redeem_script": None, "hash_type": ht,
+                    "witness_script": {"__class__": "buidl.script.WitnessScript",
+                                       "fields": {"commands": [rand_bytes(rng, 33), 0xac], "raw": None}}}
+
+
+contract("buidl.tx.Tx.hash_prevouts#anylen", props=("C05",), setup=_Bip143Setup(), args=["self"],
+         ensures=["returns()", "result == spec.hash256(spec.listser.concat_outpoints(self.tx_ins, len(self.tx_ins)))",
+                  "self._hash_sequence == spec.hash256(spec.listser.concat_sequences(self.tx_ins, len(self.tx_ins)))"],
+         invariants={1: {"inv": ["all_prevouts == spec.listser.concat_outpoints(self.tx_ins, _k)",
+                                 "all_sequence == spec.listser.concat_sequences(self.tx_ins, _k)"],
+                         "types": {"all_prevouts": "bytes", "all_sequence": "bytes"}}},
+         gen=_gen_bip143)
+
+contract("buidl.tx.Tx.hash_outputs#anylen", props=("C05",), setup=_Bip143Setup(), args=["self"],
+         ensures=["returns()", "result == spec.hash256(spec.listser.concat_ser(self.tx_outs, len(self.tx_outs)))"],
+         invariants={1: {"inv": ["all_outputs == spec.listser.concat_ser(self.tx_outs, _k)"], "types": {"all_outputs": "bytes"}}},
+         gen=_gen_bip143)
+
+contract("buidl.tx.Tx.sig_hash_bip143#anylen", props=("C05",), setup=_Bip143Setup(),
+         params={"hash_type": ("choice", [0, 1, 2, 3, 0x81, 0x82, 0x83])},
+         args=["self", "input_index", "redeem_script", "witness_script", "hash_type"],
+         requires=["input_index < len(self.tx_ins)"],
+         ensures=["returns()",
+                  "result == spec.int_be(spec.hash256(spec.listser.bip143_preimage(self.version, self.tx_ins, self.tx_outs, "
+                  "input_index, witness_script.serialize(), self.tx_ins[input_index]._value, self.locktime.serialize(), hash_type)))"],
+         gen=_gen_bip143)
+
+
+# ---------------------------------------------------------------------------- C05: BIP341 key path (no annex) for every shape
+class _Bip341Setup:
+    def __call__(self, m, env):
+        from buidl import tx as _tx, script as _sc
+        from verif.pyvc.values import HObj, TInt
+        from buidl.timelock import Locktime
+        symlist.install(m, {_tx.TxOut.serialize: "txout", _sc.Script.serialize: "script"})
+        ins = m.make_sym("tx_ins", symlist.symlist("buidl.tx.TxIn", {"_script_pubkey": "buidl.script.Script"}, max_len=2**32, fields={
+            "prev_tx": "bytes:32", "prev_index": U32, "sequence": ("tint", "buidl.timelock.Sequence", 0, 2**32 - 1),
+            "_value": ("int", 0, 2**63 - 1), "witness": ("keypath_witness",)}))
+        outs = m.make_sym("tx_outs", symlist.symlist("buidl.tx.TxOut", max_len=2**32))
+        lt = m.make_sym("locktime", U32)
+        env["self"] = m.p.alloc(HObj(_tx.Tx, {"version": m.make_sym("version", U32), "tx_ins": ins, "tx_outs": outs,
+                                              "locktime": TInt(Locktime, lt), "segwit": True, "network": "mainnet"}))
+        env["input_index"] = m.make_sym("input_index", ("int", 0, 2**32))
+        env["ext_flag"] = 0
+
+    def conc(self, env, glob):
+        pass
+
+
+def _gen_bip341(rng, tier):
+    for n_in, n_out in ((1, 0), (1, 1), (2, 1), (3, 2), (2, 3), (5, 4)):
+        for ht in (0, 1, 2, 3, 0x81, 0x82, 0x83):
+            for idx in range(n_in):
+                ins = [{"__class__": "buidl.tx.TxIn", "fields": {
+                    "prev_tx": rand_bytes(rng, 32), "prev_index": rng.getrandbits(32),
+                    "script_sig": {"__class__": "buidl.script.Script", "fields": {"commands": [], "raw": None}},
+                    "sequence": {"__tint__": "buidl.timelock.Sequence", "value": rng.getrandbits(32)},
+                    "witness": {"__class__": "buidl.witness.Witness", "fields": {"items": [rand_bytes(rng, 64)]}},
+                    "_value": rng.getrandbits(62),
+                    "_script_pubkey": {"__class__": "buidl.script.Script", "fields": {"commands": [0x51, rand_bytes(rng, 32)], "raw": None}}}}
+                    for _ in range(n_in)]
+                outs = [{"__class__": "buidl.tx.TxOut", "fields": {"amount": rng.randrange(10**8), "script_pubkey": {
+                    "__class__": "buidl.script.Script", "fields": {"commands": [0x51 + rng.randrange(4)], "raw": None}}}} for _ in range(n_out)]
+                yield {"self": {"__class__": "buidl.tx.Tx", "fields": {
+                    "version": rng.getrandbits(32), "tx_ins": ins, "tx_outs": outs,
+                    "locktime": {"__tint__": "buidl.timelock.Locktime", "value": rng.getrandbits(32)}, "segwit": True, "network": "mainnet"}},
+                    "input_index": idx, "ext_flag": 0, "hash_type": ht}
+
+
+_SP = "self.tx_ins, len(self.tx_ins)"
+contract("buidl.tx.Tx.sha_prevouts#anylen", props=("C05",), setup=_Bip341Setup(), args=["self"],
+         ensures=["returns()", "result == spec.sha256(spec.listser.concat_outpoints(%s))" % _SP,
+                  "self._sha_amounts == spec.sha256(spec.listser.concat_amounts(%s))" % _SP,
+                  "self._sha_script_pubkeys == spec.sha256(spec.listser.concat_spent_spks(%s))" % _SP,
+                  "self._sha_sequences == spec.sha256(spec.listser.concat_sequences(%s))" % _SP],
+         invariants={1: {"inv": ["all_prevouts == spec.listser.concat_outpoints(self.tx_ins, _k)",
+                                 "all_amounts == spec.listser.concat_amounts(self.tx_ins, _k)",
+                                 "all_script_pubkeys == spec.listser.concat_spent_spks(self.tx_ins, _k)",
+                                 "all_sequence == spec.listser.concat_sequences(self.tx_ins, _k)"],
+                         "types": {"all_prevouts": "bytes", "all_amounts": "bytes", "all_script_pubkeys": "bytes", "all_sequence": "bytes"}}},
+         gen=_gen_bip341)
+
+contract("buidl.tx.Tx.sha_outputs#anylen", props=("C05",), setup=_Bip341Setup(), args=["self"],
+         ensures=["returns()", "result == spec.sha256(spec.listser.concat_ser(self.tx_outs, len(self.tx_outs)))"],
+         invariants={1: {"inv": ["all_outputs == spec.listser.concat_ser(self.tx_outs, _k)"], "types": {"all_outputs": "bytes"}}},
+         gen=_gen_bip341)
+
+_NOOUT = "(hash_type & 3 == 3 and input_index >= len(self.tx_outs))"
+contract("buidl.tx.Tx.sig_hash_bip341#anylen-keypath", props=("C05",), setup=_Bip341Setup(),
+         params={"hash_type": ("choice", [0, 1, 2, 3, 0x81, 0x82, 0x83])},
+         args=["self", "input_index", "ext_flag", "hash_type"],
+         requires=["input_index < len(self.tx_ins)"],
+         ensures=["implies(not %s, returns())" % _NOOUT,
+                  "implies(not %s, result == spec.sighash.tagged_hash(b'TapSighash', spec.listser.bip341_keypath_message("
+                  "self.version, self.tx_ins, self.tx_outs, input_index, self.locktime.serialize(), hash_type)))" % _NOOUT,
+                  "implies(%s, raises())" % _NOOUT],
+         gen=_gen_bip341)
+
+
+# ---------------------------------------------------------------------------- C05: original sighash for every shape
+class _LegacySetup:
+    def __call__(self, m, env):
+        from buidl import tx as _tx, script as _sc
+        from verif.pyvc.values import HObj, TInt
+        from buidl.timelock import Locktime
+        symlist.install(m, {_tx.TxOut.serialize: "txout", _sc.Script.serialize: "script"})
+        ins = m.make_sym("tx_ins", symlist.symlist("buidl.tx.TxIn", max_len=2**32, fields={
+            "prev_tx": "bytes:32", "prev_index": U32, "sequence": ("tint", "buidl.timelock.Sequence", 0, 2**32 - 1)}))
+        outs = m.make_sym("tx_outs", symlist.symlist("buidl.tx.TxOut", max_len=2**32))
+        lt = m.make_sym("locktime", U32)
+        env["self"] = m.p.alloc(HObj(_tx.Tx, {"version": m.make_sym("version", U32), "tx_ins": ins, "tx_outs": outs,
+                                              "locktime": TInt(Locktime, lt), "segwit": False, "network": "mainnet"}))
+        rs = m.make_sym("rs", symlist.symlist("buidl.script.RedeemScript", max_len=1))
+        env["redeem_script"] = m.p.deref(rs).pre[2](0)
+        env["input_index"] = m.make_sym("input_index", ("int", 0, 2**32))
+
+    def conc(self, env, glob):
+        pass
+
+
+def _gen_legacy(rng, tier):
+    for n_in, n_out in ((1, 0), (1, 1), (2, 1), (3, 2), (2, 3), (5, 4)):
+        for ht in (0, 1, 2, 3, 0x81, 0x82, 0x83):
+            for idx in range(n_in + 1):
+                ins = [{"__class__": "buidl.tx.TxIn", "fields": {
+                    "prev_tx": rand_bytes(rng, 32), "prev_index": rng.getrandbits(32),
+                    "script_sig": {"__class__": "buidl.script.Script", "fields": {"commands": [rand_bytes(rng, 5)], "raw": None}},
+                    "sequence": {"__tint__": "buidl.timelock.Sequence", "value": rng.getrandbits(32)},
+                    "witness": {"__class__": "buidl.witness.Witness", "fields": {"items": []}},
+                    "_value": None, "_script_pubkey": None}} for _ in range(n_in)]
+                outs = [{"__class__": "buidl.tx.TxOut", "fields": {"amount": rng.randrange(10**8), "script_pubkey": {
+                    "__class__": "buidl.script.Script", "fields": {"commands": [0x51 + rng.randrange(4)], "raw": None}}}} for _ in range(n_out)]
+                yield {"self": {"__class__": "buidl.tx.Tx", "fields": {
+                    "version": rng.getrandbits(32), "tx_ins": ins, "tx_outs": outs,
+                    "locktime": {"__tint__": "buidl.timelock.Locktime", "value": rng.getrandbits(32)}, "segwit": False, "network": "mainnet"}},
+                    "input_index": idx, "hash_type": ht,
+                    "redeem_script": {"__class__": "buidl.script.RedeemScript",
+                                      "fields": {"commands": [0x51, rand_bytes(rng, 33), 0x51, 0xae], "raw": None}}}
+
+
+_L1 = "spec.listser.legacy_through_inputs(self.version, self.tx_ins, %s, input_index, redeem_script.serialize(), hash_type)"
+_UNDEF = "(input_index >= len(self.tx_ins) or (hash_type & 3 == 3 and input_index >= len(self.tx_outs)))"
+contract("buidl.tx.Tx.sig_hash_legacy#anylen", props=("C05",), setup=_LegacySetup(),
+         params={"hash_type": ("choice", [0, 1, 2, 3, 0x81, 0x82, 0x83])},
+         args=["self", "input_index", "redeem_script", "hash_type"],
+         ensures=["returns()",
+                  "implies(%s, result == 1 << 248)" % _UNDEF,
+                  "implies(not %s, result == spec.int_be(spec.hash256(spec.listser.legacy_preimage(self.version, self.tx_ins, "
+                  "self.tx_outs, input_index, redeem_script.serialize(), self.locktime.serialize(), hash_type))))" % _UNDEF],
+         invariants={1: {"inv": ["s == " + _L1 % "_k"], "types": {"s": "bytes"}},
+                     2: {"inv": ["s == " + _L1 % "len(self.tx_ins)" + " + spec.listser.legacy_out_count(self.tx_outs, input_index, hash_type)"
+                                 " + spec.listser.legacy_outs_upto(self.tx_outs, _k, hash_type)",
+                                 "hash_type & 3 != 3 or _k <= input_index"],
+                         "types": {"s": "bytes"}}},
+         gen=_gen_legacy)
+
+
+# ---------------------------------------------------------------------------- C11: fee arithmetic for every shape
+class _FeeSetup:
+    def __call__(self, m, env):
+        from buidl import tx as _tx
+        from verif.pyvc.values import HObj
+        ins = m.make_sym("tx_ins", symlist.symlist("buidl.tx.TxIn", max_len=2**32, fields={"_value": ("int", 0, 21 * 10**14)}))
+        outs = m.make_sym("tx_outs", symlist.symlist("buidl.tx.TxOut", max_len=2**32, fields={"amount": ("int", 0, 21 * 10**14)}))
+        env["self"] = m.p.alloc(HObj(_tx.Tx, {"version": 2, "tx_ins": ins, "tx_outs": outs, "segwit": True, "network": "mainnet"}))
+
+    def conc(self, env, glob):
+        pass
+
+
+def _gen_fee(rng, tier):
+    for n_in, n_out in ((0, 0), (1, 0), (1, 1), (2, 3), (7, 5), (40, 60)):
+        ins = [{"__class__": "buidl.tx.TxIn", "fields": {"prev_tx": rand_bytes(rng, 32), "prev_index": 0, "_value": rng.randrange(21 * 10**14),
+                                                         "_script_pubkey": None}} for _ in range(n_in)]
+        outs = [{"__class__": "buidl.tx.TxOut", "fields": {"amount": rng.randrange(21 * 10**14)}} for _ in range(n_out)]
+        yield {"self": {"__class__": "buidl.tx.Tx", "fields": {"version": 2, "tx_ins": ins, "tx_outs": outs, "segwit": True, "network": "mainnet"}}}
+
+
+contract("buidl.tx.Tx.fee#anylen", props=("C11",), setup=_FeeSetup(), args=["self"],
+         ensures=["returns()", "result == spec.listser.sum_values(self.tx_ins, len(self.tx_ins)) - spec.listser.sum_amounts(self.tx_outs, len(self.tx_outs))"],
+         invariants={1: {"inv": ["input_sum == spec.listser.sum_values(self.tx_ins, _k)"], "types": {"input_sum": "int"}},
+                     2: {"inv": ["output_sum == spec.listser.sum_amounts(self.tx_outs, _k)"], "types": {"output_sum": "int"}}},
+         gen=_gen_fee)
